@@ -189,6 +189,9 @@ func NewWorld(x *vexp.X, opts ...vivid.ActorSystemOption) *World {
 	uuid.SetRand(&ctrReader{})
 	vrt.Tap("actor.(*Context).HandleEnvelop", func(args ...any) {
 		c := args[0].(*actor.Context)
+		if c.System() != vivid.ActorSystem(w.Sys) {
+			return // another system of the same execution
+		}
 		env := args[1].(vivid.Envelop)
 		w.noteCtx(c)
 		t, d := describe(env.Message())
@@ -205,6 +208,9 @@ func NewWorld(x *vexp.X, opts ...vivid.ActorSystemOption) *World {
 		w.Enqs = append(w.Enqs, Enq{Seq: w.seq, MB: args[0], Type: t, Detail: d, System: env.System()})
 	})
 	vrt.Tap("actor.(*eventStream).Publish", func(args ...any) {
+		if args[0] != any(actor.VerifEventStream(w.Sys)) {
+			return // another system of the same execution
+		}
 		ctx := args[1].(vivid.EventStreamContext)
 		ev := args[2]
 		t, d := describe(ev)
@@ -245,7 +251,11 @@ func (w *World) Start() {
 
 // Ref builds a fresh local reference to path (provenance: parsed from a string).
 func (w *World) Ref(path string) vivid.ActorRef {
-	r, err := w.Sys.ParseRef(actor.LocalAddress + path)
+	addr := actor.LocalAddress
+	if root := actor.VerifRoot(w.Sys); root != nil {
+		addr = root.Ref().GetAddress() // the advertise address when remoting is enabled
+	}
+	r, err := w.Sys.CreateRef(addr, path)
 	if err != nil {
 		panic(err)
 	}
